@@ -23,6 +23,7 @@ import (
 	"runtime"
 	"sort"
 	"strconv"
+	"strings"
 	"sync"
 	"testing"
 	"time"
@@ -53,6 +54,9 @@ nodes:
       branches:
       - target: start
 `
+
+// counter2: the same machine with another specification - it tags what it records
+var counterSpec2 = strings.Replace(strings.Replace(counterSpec, "name: counter", "name: counter2", 1), `concat([bs["?m"]])`, `concat(["2:" + bs["?m"]])`, 1)
 
 // ---------------------------------------------------------------- recorder
 
@@ -111,6 +115,9 @@ func newVerifService(ctx context.Context, dir string) (*Service, error) {
 	specDir := filepath.Join(dir, "specs")
 	os.MkdirAll(specDir, 0755)
 	if err := os.WriteFile(filepath.Join(specDir, "counter.yaml"), []byte(counterSpec), 0644); err != nil {
+		return nil, err
+	}
+	if err := os.WriteFile(filepath.Join(specDir, "counter2.yaml"), []byte(counterSpec2), 0644); err != nil {
 		return nil, err
 	}
 	s, err := NewService(ctx, specDir, filepath.Join(dir, "verif.db"), "")
@@ -172,6 +179,10 @@ func doSvcOp(ctx context.Context, s *Service, rec *recorder, i int, op svcOp) {
 	switch op.Kind {
 	case "add":
 		err := s.AddMachine(ctx, "counter", op.Mid, "", nil)
+		rec.add(vO{"ev": "ret", "op": i, "kind": op.Kind, "res": classifyErr(err), "walks": vO{}})
+	case "add2":
+		// a machine with the other specification; its log starts with a marker (the model tells the two kinds apart by it)
+		err := s.AddMachine(ctx, "counter2", op.Mid, "", match.Bindings{"log": []interface{}{"#2"}})
 		rec.add(vO{"ev": "ret", "op": i, "kind": op.Kind, "res": classifyErr(err), "walks": vO{}})
 	case "rem":
 		err := s.RemMachine(ctx, op.Mid)
@@ -449,17 +460,35 @@ func concurrentHistory(id int, rng *rand.Rand, dir string) vO {
 		for k, n := 0, 1+rng.Intn(3); k < n; k++ {
 			opn++
 			op := svcOp{Mid: mids[rng.Intn(len(mids))], Msg: "m" + strconv.Itoa(opn)}
-			switch r := rng.Intn(10); {
+			switch r := rng.Intn(12); {
 			case r < 3:
 				op.Kind = "add"
 			case r < 4:
+				op.Kind = "add2"
+			case r < 6:
 				op.Kind = "rem"
-			case r < 9:
+			case r < 11:
 				op.Kind = "proc"
 			default:
 				op.Kind = "read"
 			}
 			plans[c] = append(plans[c], planned{opn, op})
+		}
+	}
+	if rng.Intn(3) == 0 {
+		// one client replaces a machine by one with another specification while the others send it messages
+		opn++
+		plans[0] = []planned{{opn, svcOp{Kind: "add", Mid: "a", Msg: "m" + strconv.Itoa(opn)}}}
+		for c := 1; c < nc; c++ {
+			plans[c] = nil
+			for k := 0; k < 2; k++ {
+				opn++
+				plans[c] = append(plans[c], planned{opn, svcOp{Kind: "proc", Mid: "a", Msg: "m" + strconv.Itoa(opn)}})
+			}
+		}
+		for _, k := range []string{"rem", "add2", "rem", "add"} {
+			opn++
+			plans[0] = append(plans[0], planned{opn, svcOp{Kind: k, Mid: "a", Msg: "m" + strconv.Itoa(opn)}})
 		}
 	}
 	for c := 0; c < nc; c++ {
